@@ -72,6 +72,7 @@ PLAN = dict(
 
 BASE = "http://ex.org/root.json"
 DOC1 = "http://ex.org/doc1.json"
+DOC3 = "http://ex.org/whole.json"
 DOC2 = "http://ex.org/doc2.json"             # referred to as "doc2.json#…", relative to BASE
 PATS = ["^a+$", "^n", "b", "^[0-9]+$"]
 FMT_NAME = "code"
@@ -198,10 +199,20 @@ def _validator_case(r, tag):
             "s": {"$ref": "doc2.json#/defs/x"},
             "t": {"pattern": PATS[0], "format": FMT_NAME},
             "u": {"$ref": "#/definitions/c"},
+            # fragment-less absolute URLs: a whole document served differently to each validator, and the
+            # schema naming itself by its (shared) id
+            "w": {"$ref": DOC3},
+            "v": {"$ref": BASE},
         },
         "patternProperties": {PATS[1]: _leaf(r, tag)},
     }
     store, world = {}, {}
+    where = r.randrange(10)
+    whole = _leaf(r, tag)
+    if where < 5:
+        store[DOC3] = whole
+    elif where < 9:
+        world[DOC3] = whole
     for url in (DOC1, DOC2):
         where = r.randrange(10)
         if where < 5:
@@ -225,8 +236,11 @@ VALUES = [1, 7, -3, 2.5, "s", "a", "aaa", "b2", "12", "x@y", None, True, [], [1,
 
 
 def _instance(r):
-    keys = ["p", "q", "r", "s", "t", "u", "n1", "n2", "zz"]
-    return dict((k, r.choice(VALUES)) for k in keys if r.random() < 0.9)
+    keys = ["p", "q", "r", "s", "t", "u", "w", "n1", "n2", "zz"]
+    inst = dict((k, r.choice(VALUES)) for k in keys if r.random() < 0.9)
+    if r.random() < 0.5:
+        inst["v"] = dict((k, r.choice(VALUES)) for k in ("p", "t", "w") if r.random() < 0.8)    # the root schema again, one level down
+    return inst
 
 
 def make_family(r):
